@@ -272,6 +272,15 @@ func init() {
 		return []smt.Term{r}
 	}
 
+	// (*net.IPNet).Contains: an uninterpreted predicate of the network's address and mask bytes and
+	// of the Equal-class of the address asked about (deterministic; nothing else is assumed)
+	libModels["(*net.IPNet).Contains"] = func(fv *funcVerifier, st *State, call *ast.CallExpr, fn *types.Func) []smt.Term {
+		sel := ast.Unparen(call.Fun).(*ast.SelectorExpr)
+		n := fv.evalExpr(st, sel.X)
+		ip := fv.evalExpr(st, call.Args[0])
+		return []smt.Term{fv.c.Let("netc", fv.netContains(st, n, fv.typeOf(sel.X), ip))}
+	}
+
 	// net.IP.Equal / String through the equivalence-class key (see ipKey)
 	libModels["(net.IP).Equal"] = func(fv *funcVerifier, st *State, call *ast.CallExpr, fn *types.Func) []smt.Term {
 		sel := ast.Unparen(call.Fun).(*ast.SelectorExpr)
@@ -434,6 +443,26 @@ func (fv *funcVerifier) bytesStr(st *State, fname, pfx string, hw smt.Term) smt.
 	return smt.App(StrSort, fname, smt.Select(fv.heapGet(st, key), slArr(hw)), slOff(hw), slLen(hw))
 }
 
+// netContains is the model of (*net.IPNet).Contains for the network n (a *net.IPNet of type nt).
+func (fv *funcVerifier) netContains(st *State, n smt.Term, nt types.Type, ip smt.Term) smt.Term {
+	named, ok := derefNamed(nt)
+	if !ok {
+		fv.unsupported("netContains: not a *net.IPNet: %s", nt)
+	}
+	si := fv.so.structOf(named)
+	_, fi := si.field("IP")
+	_, fm := si.field("Mask")
+	if fi == nil || fm == nil {
+		fv.unsupported("netContains: %s has no IP/Mask fields", named)
+	}
+	nip := fv.fieldLval(st, n, named, fi).load()
+	nm := fv.fieldLval(st, n, named, fm).load()
+	if !fv.c.Has("ipnet_contains") {
+		fv.c.DeclareFun("ipnet_contains", []string{smt.Int, smt.Int, smt.Int}, smt.Bool)
+	}
+	return smt.App(smt.Bool, "ipnet_contains", fv.ipKey(st, nip), fv.ipKey(st, nm), fv.ipKey(st, ip))
+}
+
 // ipKey is the identity of the net.IP.Equal equivalence class of the address held
 // by the slice ip in state st: a function of the byte window only (extensional), so
 // that a.Equal(b) <=> ipKey(a) == ipKey(b). Nothing is assumed about windows of
@@ -543,6 +572,8 @@ func init() {
 		return []smt.Term{fv.c.Let("bytesEq", fv.sameBytes(st, a, b))}
 	}
 	AssumedLib = append(AssumedLib, "bytes.Equal(a,b) <=> len(a)==len(b) and all bytes equal")
+	AssumedLib = append(AssumedLib, "(*net.IPNet).Contains(ip) is a deterministic predicate of the bytes of n.IP, n.Mask and of the Equal-class of ip (uninterpreted)")
+	AssumedLib = append(AssumedLib, "encoding/hex.EncodeToString(b) is a deterministic function of the bytes of b (uninterpreted)")
 }
 
 // sameBytes is content equality of two byte slices in state st.
